@@ -26,7 +26,7 @@ func TestMain(m *testing.M) { os.Exit(evid.Main(m)) }
 var ev = evid.For(prop)
 
 func init() {
-	ev.SetRule("cases as in C04 (generated handler sets, requests, payload member combinations, behaviour scripts) with recording handlers; the reference dispatch model (subject split at first/last dot, brute-force routing, named method else * with new preferring the New handler) predicts which handler runs, what it must see and the response class/code; a request is non-trivial when its resource name has >=3 tokens or contains a token equal to a request type or method name, or the method falls back to */new, or the outcome is an error mapping (panic, Error, missing reply, nothing invocable); distinct = hash of (handler set, subject, payload, script)")
+	ev.SetRule("cases as in C04 (generated handler sets, requests, payload member combinations, behaviour scripts) with recording handlers; the reference dispatch model (subject split at first/last dot, brute-force routing, named method else * with new preferring the New handler) predicts which handler runs, what it must see and the response class/code; a request is non-trivial when its resource name has >=3 tokens or contains a token equal to a request type or method name, or the method falls back to */new, or the outcome is an error mapping (panic, Error, missing reply, nothing invocable); distinct = hash of (handler set, subject, payload, script) Concurrent batches (few request shapes repeated up to 120 times, requests tagged through their query, groups spelled like other resources' names, 0-3 goroutines calling Service.Resource) count as non-trivial when some group received >=3 requests of the batch and a request is non-trivial by the rule above.")
 	ev.Assume("when several nothing-can-be-invoked conditions hold at once the property does not rank them: any applicable code is accepted")
 	ev.Assume("member names in request payloads are generated in the protocol's exact case")
 }
